@@ -54,6 +54,7 @@ type Unit struct {
 	pureDefined map[string]bool
 	smokeOn bool
 	axioms []Term
+	entryEnv func() *Env
 	gens int
 }
 
